@@ -4,6 +4,7 @@ package conc
 import (
 	"context"
 	"fmt"
+	"iter"
 	"net/http"
 	"net/http/httptest"
 	"net/url"
@@ -667,4 +668,115 @@ func FirstUse(run *kit.Run) {
 		run.Violate("first-use", *m, nil)
 	}
 	run.Count("first_use_calls", calls.Load())
+}
+
+// SharedSeq: the sequences an Iter hands out (All, Prefix, Methods, Routes, Reverse) are plain values; a program may
+// keep one and range over it from several goroutines at once, or from inside its own loop body. Every walk yields
+// exactly the routes of the snapshot the Iter was created on, whatever the other walks are doing, while a writer keeps
+// committing.
+func SharedSeq(run *kit.Run) {
+	rounds := run.Pick(6, 60)
+	f, err := fox.New()
+	if err != nil {
+		run.Inconclusive("fox.New: %v", err)
+		return
+	}
+	h := func(fox.Context) {}
+	n := 0
+	for _, m := range []string{"GET", "POST", "FOO"} {
+		for i := 0; i < 40; i++ {
+			for _, p := range []string{fmt.Sprintf("/s/%c%d", 'a'+i%7, i), fmt.Sprintf("/s/%c%d/{id}", 'a'+i%7, i), fmt.Sprintf("/t/{x}/%d/*{rest}", i)} {
+				if _, err := f.Handle(m, p, h); err == nil {
+					n++
+				}
+			}
+		}
+	}
+	var stop atomic.Bool
+	var wwg sync.WaitGroup
+	wwg.Add(1)
+	go func() {
+		defer wwg.Done()
+		for i := 0; !stop.Load(); i++ {
+			if i%2 == 0 {
+				_, _ = f.Handle("PUT", fmt.Sprintf("/zz/%d/{x}", i%5), h)
+			} else {
+				_, _ = f.Delete("PUT", fmt.Sprintf("/zz/%d/{x}", (i-1)%5))
+			}
+			runtime.Gosched()
+		}
+	}()
+	var bad atomic.Pointer[string]
+	var walks atomic.Int64
+	workers := 2 * runtime.GOMAXPROCS(0)
+	for round := 0; round < rounds && bad.Load() == nil; round++ {
+		it := f.Iter()
+		want := 0
+		sum := func(seq iter.Seq2[string, *fox.Route]) (cnt int, sig uint64) {
+			for m, r := range seq {
+				cnt++
+				for _, b := range []byte(m + " " + r.Pattern()) {
+					sig = sig*1099511628211 + uint64(b)
+				}
+			}
+			return
+		}
+		all, pre := it.All(), it.Prefix(it.Methods(), "/s/")
+		want, wantSig := sum(all)
+		wantPre, wantPreSig := sum(pre)
+		if round == 0 && want < n {
+			msg := fmt.Sprintf("Iter.All yields %d routes, %d were registered", want, n)
+			bad.CompareAndSwap(nil, &msg)
+		}
+		// nested: the same sequence ranged from inside its own loop body
+		outer, inner := 0, 0
+		for range all {
+			outer++
+			if outer%17 == 0 {
+				c, s := sum(all)
+				inner++
+				if c != want || s != wantSig {
+					msg := fmt.Sprintf("a sequence from Iter.All ranged inside its own loop body yields %d routes, a walk on its own %d", c, want)
+					bad.CompareAndSwap(nil, &msg)
+				}
+			}
+		}
+		if outer != want {
+			msg := fmt.Sprintf("a walk over Iter.All that ranged the same sequence %d times from inside its body yields %d routes instead of %d", inner, outer, want)
+			bad.CompareAndSwap(nil, &msg)
+		}
+		var wg sync.WaitGroup
+		for g := 0; g < workers; g++ {
+			wg.Add(1)
+			go func(g int) {
+				defer wg.Done()
+				defer func() {
+					if p := recover(); p != nil {
+						msg := fmt.Sprintf("ranging a shared Iter sequence panicked: %v", p)
+						bad.CompareAndSwap(nil, &msg)
+					}
+				}()
+				for k := 0; k < 4; k++ {
+					seq, wc, ws, what := all, want, wantSig, "All"
+					if (g+k)%2 == 1 {
+						seq, wc, ws, what = pre, wantPre, wantPreSig, "Prefix"
+					}
+					c, s := sum(seq)
+					walks.Add(1)
+					if c != wc || s != ws {
+						msg := fmt.Sprintf("one sequence value from Iter.%s ranged by %d goroutines at once: a walk yields %d routes (signature %x), a walk on its own %d (%x)", what, workers, c, s, wc, ws)
+						bad.CompareAndSwap(nil, &msg)
+					}
+				}
+			}(g)
+		}
+		wg.Wait()
+	}
+	stop.Store(true)
+	wwg.Wait()
+	if m := bad.Load(); m != nil {
+		run.Violate("shared-seq", *m, map[string]any{"workers": workers, "seed": run.Seed()})
+	}
+	run.Case("shared-iter-sequences", true)
+	run.Count("shared_sequence_walks", walks.Load())
 }
